@@ -33,9 +33,22 @@ def _quote_split():
 _quote_split.__name__ = "quote_split"
 
 
+def _continuation():
+    from bounded import c08
+    from contracts import readerblocks
+    c = readerblocks.continuation(PROP)
+    c.search_fn = c08.search
+    return c
+
+
+_continuation.__name__ = "continuation_block"
+
+
 def build(tier, seed):
     set_tier(tier)
     tasks = [a_task(PROP, calls.strip_paren), a_task(PROP, calls.assoc_getitem), a_task(PROP, calls.assoc_contains), a_task(PROP, calls.assoc_remove_last), a_task(PROP, _quote_split),
+             Task(f"{PROP}.S.associate_order", PROP, "FortranContainer.__init__", lambda: calls.associate_order(PROP, lambda: __import__("bounded.c08", fromlist=["x"]).search())),
+             a_task(PROP, _continuation),
              Task(f"{PROP}.S.masking", PROP, "literal masking loops", lambda: __import__("contracts.masking", fromlist=["x"]).obligations(PROP, "ford.sourceform", lambda: __import__("bounded.c08", fromlist=["x"]).search())),
              Task(f"{PROP}.S.casefold.attribs", PROP, "attribute membership tests", lambda: __import__("contracts.casefold", fromlist=["x"]).attribute_obligations(PROP, replay=lambda: __import__("bounded.c08", fromlist=["x"]).search())),
              Task(f"{PROP}.B.call_patterns", PROP, "CALL_RE/SUBCALL_RE/ARITH_GOTO_RE/FORMAT_RE", lambda: rx_calls.obligations(PROP, "patterns")), bounded_task()]
@@ -49,7 +62,8 @@ def build(tier, seed):
             "and their contents dropped, split whenever a group of depth retlevel closes",
             "a user function or array named `goto` is outside the subset",
         ],
-        "functions_under_contract": fn_meta([("ford.utils", "strip_paren", None), ("ford.utils", "quote_split", "the ';' statement splitter: a call after a ';' is found only if the split is right"), ("ford.sourceform", "Associations.__getitem__", None),
+        "functions_under_contract": fn_meta([("ford.utils", "strip_paren", None), ("ford.utils", "quote_split", "the ';' statement splitter: a call after a ';' is found only if the split is right"), ("ford.reader", "FortranReader.__next__", "block contract: continuation joining (a statement broken after CALL keeps the blank that separates the keyword from the name)"),
+                                             ("ford.sourceform", "Associations.__getitem__", None),
                                              ("ford.sourceform", "Associations.__contains__", None), ("ford.sourceform", "Associations.remove_last_batch", None)]) +
         [{"constants": "CALL_RE, SUBCALL_RE, ARITH_GOTO_RE, FORMAT_RE and the order of the cascade branches"}],
         "unverified_surroundings": ["FortranContainer._add_procedure_calls as a whole (regex finditer over every depth, intrinsic filter, de-duplication)",
